@@ -12,6 +12,12 @@ PENDING = "check under construction in this session; will be claimed once its ha
 NOT_APPLICABLE = {("C%02d" % i): PENDING for i in range(1, 21)}
 
 TEXT = {
+    "C12": dict(
+        engine="E4 p2p",
+        technique="property-based testing (rapid): generated request/receive/restart sequences on the real filter; stateful histories on a real F3 node observed by an observer peer and a pubsub event tracer, invariants over the publication history",
+        level_text="(1) ~10^5 generated sequences per quick run on the real equivocation filter with restarts re-armed by replaying the accepted log in file order and permuted order. (2) Real F3 nodes (real WAL directory and certstore, own gossipsub, model EC, mock clock) driven through the public F3.Broadcast with conflicting validly signed messages, rebroadcast requests, graceful and abrupt restarts (optionally another EC head); an observer peer receives exactly what the node sends, and the node's pubsub event tracer snapshots the WAL directory with a fresh reader synchronously at every Publish. Invariants: one signature per (instance, sender, round, step); no older instance after a newer one; every published message was in the WAL when Publish was called.",
+        level_note="Storage errors and a second node with the same identity are excluded by the statement (receives for this node's sender ids from other peers are not generated). Abrupt restart = old node abandoned, new node on the same datastore and path with a fresh libp2p host. Observation by the observer peer is asynchronous; a schedule-dependent failure is still reported with the history of the failing run.",
+    ),
     "C16": dict(
         engine="E4 p2p",
         technique="property-based testing (rapid) over an in-process libp2p network: raw-stream differential against the store, scripted Byzantine responder vs a poller model",
